@@ -64,7 +64,7 @@ def _bound_method(c, func, receiver):
     return o
 
 
-@unit("_resolve-method", ["C13"], [S + ":_resolve", S + ":_dig", S + ":_eval", S + ":Element.clone", S + ":Call.clone", S + ":InternedMC.__call__"],
+@unit("_resolve-method", ["C13", "C15"], [S + ":_resolve", S + ":_dig", S + ":_eval", S + ":Element.clone", S + ":Call.clone", S + ":InternedMC.__call__"],
       assumed=["inspect.getfullargspec(f).args[0] is the name of the first parameter", "a bound method forwards unknown attribute lookups to __func__ (CPython)"])
 def u_resolve_method(c):
     """obj.meth > v: the compiled selector's function is the function underlying the method (through decorators that record
@@ -87,12 +87,15 @@ def u_resolve_method(c):
     cap = it.call(Element, [], dict(name="v", capture="v", tags=frozenset({1})))
     sel = it.call(Call, [], dict(element=it.call(Element, [], dict(name=target)), captures=(cap,)))
     cnt = iter(range(100))
-    st, r = run(it, it.get_global(S, "_resolve"), [sel, {}, cnt])
+    st, r = run(it, it.get_global(S, "_resolve"), [sel, {}, iter(range(100))])
     if st != "ok":
         c.prove("select-does-not-raise-for-any-receiver", False, note=f"raised {exc_name(r)}: {r!r}")
         return
     c.prove("select-does-not-raise-for-any-receiver", True)
     c.prove("function-is-the-underlying-function", r.fields["element"].fields["name"] is inner)
+    # compiled selectors that are structurally equal are the same object: the same method of the same receiver, compiled again
+    st_a, r_again = run(it, it.get_global(S, "_resolve"), [sel, {}, iter(range(100))])
+    c.prove("compiled-again/same-selector-object", st_a == "ok" and r_again is r, only=["C15"])
     caps = r.fields["captures"]
     if through_object:
         ok = len(caps) == 2 and caps[0].fields["name"] == "v"
